@@ -29,5 +29,7 @@ THOROUGH = QUICK + [
 
 
 def run(ctx):
+    if getattr(ctx, "replay_path", None):
+        return pc.replay(ctx, "C15", "at")
     pc.run_configs(ctx, "C15", "at", THOROUGH if ctx.thorough else QUICK,
                    spec_fidelity=[("S:ans-slave", QUICK[0][1], 2)])
